@@ -647,6 +647,22 @@ static plan::Plan genC15(uint64_t seed, const std::string& tier) {
     std::vector<Step> steps;
     addBytes(&steps, badFirst ? corruptCrc(wire) : wire, 'M', r);
     Bytes second = r.chance(0.25) ? corruptCrc(wire) : wire;
+    if (badFirst && r.chance(0.4)) {
+      // the "repetition" after the NAK is another telegram of the same requester: to a slave nobody answers for, or with
+      // the ID of another registered answer - what was decided for the first attempt must not carry over
+      Bytes m2 = m;
+      if (r.chance(0.5)) { do { m2[1] = randomSlaveAddr(r); } while (m2[1] == ownSlave || m2[1] == own); }
+      else {
+        const Ans& b = answers[r.below(static_cast<uint32_t>(answers.size()))];
+        m2.resize(5);
+        m2[2] = b.pb; m2[3] = b.sb;
+        Bytes id2 = b.id;
+        if (r.chance(0.3)) id2.push_back(biasedByte(r));
+        m2[4] = static_cast<uint8_t>(id2.size());
+        m2.insert(m2.end(), id2.begin(), id2.end());
+      }
+      second = ref::renderMasterPart(m2);
+    }
     char buf[600];
     snprintf(buf, sizeof(buf), "bus requester idle=%d slave=%d nakresp=%d second=%s note=%s steps=%s", static_cast<int>(r.below(2)), ref::isMaster(zz) ? 0 : 1,
              r.chance(0.25) ? 1 + static_cast<int>(r.below(2)) : 0, ref::hex(second).c_str(), badFirst ? "badcrc" : "ok", simbus::stepsToText(steps).c_str());
